@@ -111,3 +111,17 @@ Example C15_repeating_step_refuted :
     st (nd s1 0) = NError /\ ph (nd s1 0) = PRepeatWait /\
     ph (nd s3 0) = PExec /\ ph (nd s3 1) = PExec /\ exec_count repeat_cof_cfg s3 = 2 /\ running_count repeat_cof_cfg s3 = 1.
 Proof. exact repeat_cof_breaks_order_and_cap. Qed.
+
+(* A command that cannot be created (the theorems above cover it: in the model it is the label WCreateFail, an attempt
+   that fails without a command having been started): step 0 (retry limit 1, continueOn.failure, maxActiveRuns = 1)
+   fails to create its command once, waits out the retry interval still RUNNING - the slot stays taken during the retry interval and is freed afterwards: step 1 is refused meanwhile -,
+   then executes and succeeds; only then step 1 is launched. *)
+Example C15_creation_failure_nonvacuous :
+  norepeat cfail_cfg /\ maxActive cfail_cfg = 1 /\
+  exists s1 s2, run cfail_cfg (init cfail_cfg) cfail_pre = Some s1 /\
+    st (nd s1 0) = NRunning /\ ph (nd s1 0) = PRetryWait /\ rc (nd s1 0) = 1 /\ outs (nd s1 0) = [false] /\
+    step cfail_cfg s1 (LCommit 1) = None /\ step cfail_cfg s1 (WExecStart 0) = None /\
+    run cfail_cfg s1 cfail_post = Some s2 /\
+    st (nd s2 0) = NSuccess /\ rc (nd s2 0) = 1 /\ att (nd s2 0) = 2 /\ outs (nd s2 0) = [true; false] /\
+    ph (nd s2 1) = PExec.
+Proof. exact cfail_retry_ok. Qed.
